@@ -1074,6 +1074,16 @@ static void
 jump_handshake(br_ssl_engine_context *cc, int action)
 {
 	/*
+	 * The handshake processor stopped for good when the engine
+	 * failed; it must not be resumed (this could happen when an
+	 * outgoing record was acknowledged after a failure that occurred
+	 * while the caller was still busy sending that record).
+	 */
+	if (br_ssl_engine_closed(cc)) {
+		return;
+	}
+
+	/*
 	 * We use a loop because the handshake processor actions may
 	 * allow for more actions; namely, if the processor reads all
 	 * input data, then it may allow for output data to be produced,
